@@ -48,8 +48,8 @@ theorem Flt.ofInt_exact (i : Int) (h : i.natAbs < 2 ^ 53) : Flt.ofInt i = .fin i
 
 /-! ## operators: the repaired model is the specification -/
 
-theorem ifaceEq_ok (d : Dev) (h : d.uncmp = false) (l r : Val) : ∃ b, ifaceEq d l r = .ok b := by
-  cases l <;> cases r <;> simp [ifaceEq, h]
+theorem ifaceEq_ok (d : Dev) (h : d.uncmp = false) (h' : d.ifaceTrap = false) (l r : Val) : ∃ b, ifaceEq d l r = .ok b := by
+  cases l <;> cases r <;> simp [ifaceEq, h, h']
   case ext.ext a b => by_cases h1 : a.ty = b.ty <;> cases h2 : a.cmp <;> simp [h1] <;> exact (Decidable.em _).symm
 
 theorem ifaceEq_fixed (l r : Val) : ifaceEq Dev.fixed l r = .ok (Spec.same l r) := by
@@ -63,11 +63,11 @@ theorem inLoop_fixed (l : Val) (xs : List Val) : inLoop Dev.fixed l xs = .ok (xs
     simp only [inLoop, ifaceEq_fixed, List.any_cons]
     cases Spec.same l x <;> simp [ih]
 
-theorem inLoop_ok (d : Dev) (h : d.uncmp = false) (l : Val) (xs : List Val) : ∃ b, inLoop d l xs = .ok b := by
+theorem inLoop_ok (d : Dev) (h : d.uncmp = false) (h' : d.ifaceTrap = false) (l : Val) (xs : List Val) : ∃ b, inLoop d l xs = .ok b := by
   induction xs with
   | nil => exact ⟨false, rfl⟩
   | cons x xs ih =>
-    obtain ⟨b, hb⟩ := ifaceEq_ok d h l x
+    obtain ⟨b, hb⟩ := ifaceEq_ok d h h' l x
     simp only [inLoop, hb]
     cases b
     · simpa using ih
@@ -134,14 +134,15 @@ def uncomparablePair (o : Op) (l r : Val) : Bool :=
   | _ => false
 
 theorem ifaceEq_error_iff (d : Dev) (l r : Val) :
-    (∃ f, ifaceEq d l r = .error f) ↔ (d.uncmp = true ∧ sameContainer l r = true) := by
-  cases l <;> cases r <;> cases h : d.uncmp <;> simp [ifaceEq, sameContainer, isArr, isObj, sameUExt, h]
-  all_goals (rename_i a b; by_cases h1 : a.ty = b.ty <;> cases h2 : a.cmp <;> simp [h1])
+    (∃ f, ifaceEq d l r = .error f) ↔ (d.faultFlag l = true ∧ sameContainer l r = true) := by
+  cases l <;> cases r <;> cases h : d.uncmp <;> cases h' : d.ifaceTrap <;>
+    simp [ifaceEq, sameContainer, isArr, isObj, sameUExt, Dev.faultFlag, passesGuard, h, h']
+  all_goals (rename_i a b; by_cases h1 : a.ty = b.ty <;> cases h2 : a.cmp <;> cases h3 : a.tcmp <;> simp [h1])
 
 theorem ifaceEq_container_false (d : Dev) (l r : Val) (hl : isContainer l = true) :
     ifaceEq d l r ≠ .ok true := by
   cases l <;> cases r <;> cases h : d.uncmp <;> simp_all [ifaceEq, isContainer, isArr, isObj, isUExt]
-  all_goals (rename_i a b; by_cases h1 : a.ty = b.ty <;> simp [h1])
+  all_goals (rename_i a b; by_cases h1 : a.ty = b.ty <;> simp [h1] <;> split <;> simp)
 
 theorem ifaceEq_noncontainer_ok (d : Dev) (l r : Val) (hl : isContainer l = false) :
     ∃ b, ifaceEq d l r = .ok b := by
@@ -152,7 +153,7 @@ theorem sameContainer_noncontainer (l r : Val) (hl : isContainer l = false) : sa
   cases l <;> cases r <;> simp_all [sameContainer, isContainer, isArr, isObj, isUExt, sameUExt]
 
 theorem inLoop_error_iff (d : Dev) (l : Val) (xs : List Val) :
-    (∃ f, inLoop d l xs = .error f) ↔ (d.uncmp = true ∧ xs.any (sameContainer l) = true) := by
+    (∃ f, inLoop d l xs = .error f) ↔ (d.faultFlag l = true ∧ xs.any (sameContainer l) = true) := by
   induction xs with
   | nil => simp [inLoop]
   | cons x xs ih =>
@@ -172,7 +173,7 @@ theorem inLoop_error_iff (d : Dev) (l : Val) (xs : List Val) :
         simp [inLoop, hx, this.1, this.2]
       | ok b =>
         cases b
-        · have hno : ¬ (d.uncmp = true ∧ sameContainer l x = true) := by
+        · have hno : ¬ (d.faultFlag l = true ∧ sameContainer l x = true) := by
             intro h
             obtain ⟨f, hf⟩ := (ifaceEq_error_iff d l x).2 h
             rw [hx] at hf
@@ -190,7 +191,7 @@ theorem inLoop_error_iff (d : Dev) (l : Val) (xs : List Val) :
 set_option maxHeartbeats 1000000 in
 /-- exact characterisation of the faulting operator applications -/
 theorem evalOp_error_iff (d : Dev) (rx : RxEngine) (o : Op) (l r : Val) :
-    (∃ f, evalOp d rx o l r = .error f) ↔ (d.uncmp = true ∧ uncomparablePair o l r = true) := by
+    (∃ f, evalOp d rx o l r = .error f) ↔ (d.faultFlag l = true ∧ uncomparablePair o l r = true) := by
   cases o
   case eq =>
     rw [show uncomparablePair .eq l r = sameContainer l r from rfl, ← ifaceEq_error_iff]
@@ -224,13 +225,16 @@ theorem evalOp_error_iff (d : Dev) (rx : RxEngine) (o : Op) (l r : Val) :
   case count => cases l <;> simp [evalOp, uncomparablePair]
   all_goals (cases l <;> cases r <;> simp [evalOp, uncomparablePair, ordering])
 
-theorem evalOp_ok_of_fixed (d : Dev) (h : d.uncmp = false) (rx : RxEngine) (o : Op) (l r : Val) :
+theorem faultFlag_false (d : Dev) (h : d.uncmp = false) (h' : d.ifaceTrap = false) (l : Val) : d.faultFlag l = false := by
+  simp [Dev.faultFlag, h, h']
+
+theorem evalOp_ok_of_fixed (d : Dev) (h : d.uncmp = false) (h' : d.ifaceTrap = false) (rx : RxEngine) (o : Op) (l r : Val) :
     ∃ v, evalOp d rx o l r = .ok v := by
   cases hv : evalOp d rx o l r with
   | ok v => exact ⟨v, rfl⟩
   | error f =>
     have := (evalOp_error_iff d rx o l r).1 ⟨f, hv⟩
-    rw [h] at this
+    rw [faultFlag_false d h h'] at this
     exact absurd this.1 (by simp)
 
 end OjgVerif.Script
